@@ -325,3 +325,5 @@ func noDigits(s string) string {
 type simhookGInfo = simhook.GInfo
 
 func stripLine(s string) string { return simhook.StripLine(s) }
+
+func simhookGoClient(name string, fn func()) { simhook.GoClient(name, fn) }
